@@ -5,21 +5,20 @@ import os
 
 VERIF = os.path.dirname(os.path.dirname(os.path.abspath(__file__)))
 
-CLAIMED = {
-    "C20": dict(
-        text="Theorems over ALL u64 values / all byte strings for the varint writer, reader and size function "
-             "(round trip at any offset, size agreement, canonical form, unrolled reader = LEB128 loop), about a "
-             "literal Gallina transcription of protobuf_utils.rs; model tied to the code by a differential "
-             "correspondence run (real write_varint64/read_varint64_offset/inner_sizeof_varint/MessageBufReader/"
-             "FileMessageReader vs the model evaluated by vm_compute) plus an independent property oracle.",
-        note="Trusted: Coq kernel+vm_compute, the hand transcription (checked by the correspondence on seeded cases), "
-             "harness and runner glue. Disk read errors and record lengths >= 2^63 are out of the model.",
-        technique="Rocq proof (induction, bit-vector lemmas) + model/implementation correspondence",
-        design="3/C20",
-    ),
-}
+import glob
+import importlib
+import sys
 
-NOT_YET = {}
+sys.path.insert(0, os.path.dirname(os.path.abspath(__file__)))
+
+CLAIMED = {}
+for f in sorted(glob.glob(os.path.join(os.path.dirname(os.path.abspath(__file__)), "checks", "c[0-9]*.py"))):
+    name = os.path.basename(f)[:-3]
+    mod = importlib.import_module("checks." + name)
+    if getattr(mod, "MANIFEST", None):
+        CLAIMED[name.upper()] = mod.MANIFEST
+
+NOT_YET = {}   # property id -> reason, for properties that stay unclaimed
 
 ALL = ["C%02d" % i for i in range(1, 21)]
 
